@@ -43,6 +43,12 @@ MCInit ==
            /\ (vdoc # <<>> => (recv /\ icc = ""))
            /\ (norecv => (vdoc = <<>> /\ icc = "" /\ recv /\ size = None))
            /\ input = MkInput(ptr, n, <<i1, i2, i3>>, size, cc, icc, recv, vdoc, norecv)
+     (* a virtual function that also carries #[address]: rejected today; if it is ever accepted its   *)
+     (* wrapper still has to go through the slot                                                      *)
+     \/ \E ptr \in Ptrs, n \in 1..2, k \in 1..2 :
+           /\ k <= n
+           /\ input = [MkInput(ptr, n, <<None, None, None>>, None, "", "", TRUE, <<>>, FALSE)
+                         EXCEPT !.mods[1].defs[1].vft.funcs[k].addr = 8192]
      (* the convention sweep: every name on the slot and on the wrapper, the other dimensions at rest *)
      \/ \E ptr \in Ptrs, cc \in SweepCCs \cup {""}, icc \in SweepCCs \cup {""}, recv \in BOOLEAN :
            input = MkInput(ptr, 2, <<None, None, None>>, None, cc, icc, recv, <<>>, FALSE)
